@@ -702,6 +702,97 @@ def pyFormatS (pieces args : Val) : Res Val :=
     .val (.str (go ps as))
   | _, _ => .exc
 
+/-! ### C integer semantics (the transliterated `c_common.pyx`: typed locals are re-converted on every assignment) -/
+
+/-- two's-complement wrap of an integer to `bits` bits, signed -/
+def wrapSigned (bits : Nat) (i : Int) : Int :=
+  let m : Int := (2 ^ bits : Nat)
+  let r := i % m
+  if r ≥ m / 2 then r - m else r
+
+/-- `int(x)` of a number (truncation toward zero), `none` for anything else -/
+def truncInt? (v : Val) : Option Int :=
+  match v with
+  | .bool b => some (if b then 1 else 0)
+  | .num q => some (if q < 0 then -((-q).floor) else q.floor)
+  | _ => Option.none
+
+/-- `cdef long x = …` -/
+def cConvLong (v : Val) : Res Val :=
+  match truncInt? v with
+  | some i => .val (.num (wrapSigned 64 i : Int))
+  | Option.none => .exc
+/-- `cdef int x = …` -/
+def cConvInt (v : Val) : Res Val :=
+  match truncInt? v with
+  | some i => .val (.num (wrapSigned 32 i : Int))
+  | Option.none => .exc
+def cConvSsize := cConvLong
+/-- `cdef unsigned char x = …` (a one-character string converts to its code) -/
+def cConvUchar (v : Val) : Res Val :=
+  match v with
+  | .str [c] => .val (ofNat (c.toNat % 256))
+  | .str _ => .exc
+  | _ => match truncInt? v with
+    | some i => .val (.num ((i % 256 : Int) : Rat))
+    | Option.none => .exc
+/-- `cdef char x = …` -/
+def cConvChar (v : Val) : Res Val :=
+  match v with
+  | .str [c] => .val (.num (wrapSigned 8 (c.toNat : Int) : Int))
+  | .str _ => .exc
+  | _ => match truncInt? v with
+    | some i => .val (.num (wrapSigned 8 i : Int))
+    | Option.none => .exc
+/-- `cdef double x = …` -/
+def cConvDouble (v : Val) : Res Val :=
+  match v.num? with
+  | some q => .val (.num q)
+  | Option.none => .exc
+/-- `cdef bint x = …` -/
+def cConvBint (v : Val) : Res Val := .val (.bool v.truth)
+/-- `cdef str x = …`: `None` or a string -/
+def cConvStr (v : Val) : Res Val :=
+  match v with
+  | .none => .val .none
+  | .str s => .val (.str s)
+  | _ => .exc
+def cConvObj (v : Val) : Res Val := .val v
+/-- `<long> x` of a double (x86-64 `cvttsd2si`: out of range gives LONG_MIN) -/
+def cCastLong (v : Val) : Res Val :=
+  match v.num? with
+  | some q =>
+    let t : Int := if q < 0 then -((-q).floor) else q.floor
+    if t ≥ (2 ^ 63 : Nat) ∨ t < -((2 ^ 63 : Nat) : Int) then .val (.num (-((2 ^ 63 : Nat) : Int) : Int)) else .val (.num (t : Int))
+  | Option.none => .exc
+
+/-- `s.encode()` / `bytes(b)` / `bytearray(b)`: byte strings are lists of numbers -/
+def pyEncode (v : Val) : Res Val :=
+  match v with
+  | .str s => if s.all (fun c => c.toNat < 128) then .val (.tuple (s.map (fun c => ofNat c.toNat))) else .exc
+  | _ => .exc
+def pyBytes (v : Val) : Res Val :=
+  match v with
+  | .tuple l => .val (.tuple l)
+  | _ => .exc
+/-- `bytearray(n)` (n zero bytes) or `bytearray(b)` (a copy) -/
+def pyBytearray (v : Val) : Res Val :=
+  match v with
+  | .tuple l => .val (.tuple l)
+  | _ => match v.int? with
+    | some (.ofNat n) => .val (.tuple (List.replicate n (.num 0)))
+    | _ => .exc
+/-- `b.decode()` of ASCII bytes -/
+def pyDecode (v : Val) : Res Val :=
+  match v with
+  | .tuple l =>
+    (match l.mapM (fun x => match x.int? with
+        | some (.ofNat n) => if n < 128 then some (Char.ofNat n) else Option.none
+        | _ => Option.none) with
+    | some cs => .val (.str cs)
+    | Option.none => .exc)
+  | _ => .exc
+
 /-! ### exceptions (`try` / `except`) -/
 
 /-- which Python exceptions an `except` clause catches: `RuntimeError`, any *other* class (KeyError, ValueError, …:
